@@ -74,7 +74,7 @@ EnvFair ==
                        /\ WF_vars(SigFinish(r))
     /\ WF_vars(SrvFill) /\ WF_vars(SrvDecode) /\ WF_vars(SrvDecodeErr) /\ WF_vars(SrvErrSend) /\ WF_vars(SrvHandle)
     /\ WF_vars(SrvRunExit) /\ WF_vars(SrvLateClose)
-    /\ WF_vars(HRecv) /\ WF_vars(HClosed) /\ WF_vars(HLock) /\ WF_vars(HWrite) /\ WF_vars(HWritten)
+    /\ WF_vars(HRecv) /\ WF_vars(HClosed) /\ WF_vars(HLock) /\ WF_vars(HWrite) /\ WF_vars(HWritten) /\ WF_vars(HCloseStdin)
     /\ WF_vars(SrvReturn)
 EnvFairSpec == EnvSpec /\ EnvFair
 
